@@ -224,10 +224,13 @@ def report(ck, results, job, known, counts, witness=False):
             counts['drift'].append('%s %s' % (r['name'], r['drift']))
         for v in r['violations']:
             slug = v.get('known') or ''
-            if slug and ('C14', slug) in known:
-                ck.known(slug, known[('C14', slug)] + ' [reproduced on real code: %s]' % v['detail'][:300])
+            if slug:
                 counts['known_hits'][slug] = counts['known_hits'].get(slug, 0) + 1
-                continue
+                if ('C14', slug) in known:
+                    ck.known(slug, known[('C14', slug)] + ' [reproduced on real code: %s]' % v['detail'][:300])
+                    continue
+                if counts['known_hits'][slug] > 2:      # class not listed: report two witnesses of it, not hundreds
+                    continue
             ck.violation('%s (%s): %s' % (v['kind'], r['name'], v['detail']),
                          {'mode': job['mode'], 'schedule': by_name[r['name']], 'kind': v['kind'], 'detail': v['detail'],
                           'gate': by_name[r['name']].get('gate', '')})
@@ -251,10 +254,42 @@ WITNESS = {
 }
 
 
+def witness_schedules():
+    out = []
+    for slug, wit in WITNESS.items():
+        out.append({'name': 'witness-' + slug, 'role': 'server' if slug == 'no-close-callback-when-busy' else 'client', 'mem': 'file',
+                    'streams': wit['streams'], 'cb': wit['cb'], 'gate': wit.get('gate', ''), 'raw': True,
+                    'steps': [{'a': a, 's': s, 't': t} for a, s, t in wit['steps']]})
+    return out
+
+
+def witness_verdict(ck, prop, known, sched, r):
+    slug = sched['name'][len('witness-'):]
+    hit = [v for v in r['violations'] if v.get('known') == slug]
+    other = [v for v in r['violations'] if not v.get('known')]
+    if hit:
+        if (prop, slug) in known:
+            ck.known(slug, known[(prop, slug)] + ' [witness replayed on real code: %s]' % hit[0]['detail'][:400])
+        else:
+            ck.violation('%s: %s' % (slug, hit[0]['detail']), {'mode': 'manual', 'schedule': sched, 'kind': hit[0]['kind'],
+                                                             'detail': hit[0]['detail'], 'gate': sched['gate']})
+    elif (prop, slug) in known:
+        ck.notes.append('listed known finding %s: the witness did not reproduce on this tree (%s)' % (slug, r['harness'] or 'no violation'))
+    for v in other:
+        ck.violation('%s (%s): %s' % (v['kind'], sched['name'], v['detail']), {'mode': 'manual', 'schedule': sched, 'kind': v['kind'],
+                                                                              'detail': v['detail'], 'gate': sched['gate']})
+
+
+def new_counts():
+    return dict(behaviours=0, steps=0, compared=0, census=0, later=0, pending=0, nd_diverged=0, drift=[], harness_problems=[],
+                known_hits={})
+
+
 def run(prop, tier, seed, replay=None):
     ck = core.Check(prop, 'model_checking', tier, seed)
     rng = random.Random(ck.seed)
     quick = ck.tier == 'quick'
+    wait_ms = 12000
     ck.assumptions += [
         'manual mode: both ends are real sessions created by the real newSession in one process; the goroutine that turns '
         'each end\'s epoll loop is the harness (the loop body epoll_wait(0)+handleEvent and runLambda is called when the spec '
@@ -262,201 +297,231 @@ def run(prop, tier, seed, replay=None):
         'peer death in-process = shutdown(2) of the peer\'s descriptor (the survivor sees RDHUP exactly as after a SIGKILL); '
         'a real SIGKILL of a child process peer is used in real mode with the untouched dispatcher',
         'run-to-completion behaviours only are replayed step by step; interleavings inside Session.Close / teardown are '
-        'decided on the specification by TLC and staged with gates only for the listed witness',
+        'decided on the specification by TLC and staged with a gate only for the listed witness',
         'interpretation: a "later call" is a call that starts after Session.IsClosed() returns true; reading data that was '
         'delivered before the end is not a failure to fail',
-        'time bounds of the oracles are generous (%d s) because the machine is shared; a miss is re-checked before it is reported' % 12,
+        'time bounds of the oracles are generous (%d s) because the machine is shared; anything that is not clean is executed a '
+        'second time alone before it is reported' % (wait_ms // 1000),
     ]
     known = core.known_findings()
+    extra = os.environ.get('VERIF_KNOWN_EXTRA')      # testing aid: proposed `known:` lines that are not in known-findings.txt yet
+    if extra and os.path.exists(extra):
+        for line in open(extra):
+            m = re.match(r'known:\s+property=(\S+)\s+id=(\S+)\s+(.*)', line.strip())
+            if m:
+                known[(m.group(1), m.group(2))] = m.group(3)
     listed = [s for s in SLUGS if (prop, s) in known]
-    counts = dict(behaviours=0, steps=0, compared=0, census=0, later=0, pending=0, nd_diverged=0, drift=[], harness_problems=[],
-                  known_hits={})
-    wait_ms = 12000
+    counts = new_counts()
 
     if replay:
         rep = json.load(open(replay))
-        job = {'mode': rep['mode'], 'schedules': [rep['schedule']], 'known': listed, 'workers': 1, 'wait_ms': wait_ms}
+        job = {'mode': rep['mode'], 'schedules': [rep['schedule']], 'known': SLUGS, 'workers': 1, 'wait_ms': wait_ms}
         ck.cov['evaluations'] = 1
         ck.cov['distinct_nontrivial'] = 1
         res = harness(ck, job, known, INSTR_GATE if rep.get('gate') == 'open-in-close-window' else None, 'replay')
         if res is not None:
-            report(ck, res, job, known, counts)
+            if rep['schedule']['name'].startswith('witness-'):
+                witness_verdict(ck, prop, known, rep['schedule'], res[0])
+            else:
+                report(ck, res, job, known, counts)
             for d in counts['drift']:
                 print('SPEC-DRIFT module=Lifecycle at=%s' % d[:600])
         return ck.finish()
 
     ck.cov['tlc_configs'] = []
-    # ---- 1. design check, every interleaving (fine grained), known classes pruned; runs beside the replay
-    fine_cfgs = [dict(streams=[1], cb=[], closers=['c1', 'c2'], atomic=False, maxsend=1, maxpc=0, accept=False, flush=False, maxops=1),
-                 dict(streams=[1], cb=[1], closers=['c1'], atomic=False, maxsend=1, maxpc=0, accept=False, flush=False, maxops=2)]
-    if not quick:
-        fine_cfgs += [dict(streams=[1, 2], cb=[2], closers=['c1'], atomic=False, maxsend=1, maxpc=1, accept=True, flush=False, maxops=2),
-                      dict(streams=[1], cb=[], closers=['c1', 'c2'], atomic=False, maxsend=1, maxpc=0, accept=True, flush=True, maxops=3)]
-    fine_out = []
+    F, T = False, True
+    def C(streams, cb, closers, atomic, maxsend, maxpc, accept, flush, maxops):
+        return dict(streams=streams, cb=cb, closers=closers, atomic=atomic, maxsend=maxsend, maxpc=maxpc, accept=accept,
+                    flush=flush, maxops=maxops)
+    if quick:
+        fine_cfgs = [C([1], [], ['c1', 'c2'], F, 1, 0, F, F, 1), C([1], [1], ['c1'], F, 1, 0, F, F, 2)]
+        coarse = [C([1, 2], [2], ['c1'], T, 1, 1, T, F, 1), C([1], [], ['c1', 'c2'], T, 1, 0, F, T, 2)]
+        limit = 170
+    else:
+        fine_cfgs = [C([1], [], ['c1', 'c2'], F, 1, 0, F, F, 1), C([1], [1], ['c1'], F, 1, 0, F, F, 2),
+                     C([1, 2], [2], ['c1'], F, 1, 1, T, F, 2), C([1], [], ['c1', 'c2'], F, 1, 0, T, T, 3)]
+        coarse = [C([1, 2], [2], ['c1'], T, 1, 1, T, F, 2), C([1], [], ['c1', 'c2'], T, 1, 0, T, T, 3),
+                  C([1, 2], [1, 2], ['c1'], T, 2, 1, F, F, 2)]
+        limit = 1500
+
+    # ---- design check of every interleaving (fine grained) and the gate witness run beside the replay
+    fine_out, gate_out, graphs = [], [], {}
 
     def fine_thread():
         for c in fine_cfgs:
-            r = tlc.run('Lifecycle', 'mc.cfg', timeout=1500 if not quick else 400, workers=4,
+            r = tlc.run('Lifecycle', 'mc.cfg', timeout=400 if quick else 2400, workers=3,
                         extra_files={'mc.cfg': cfg_text(c, True, INVS, 'Terminates DeathNoticed' if len(c['streams']) == 1 else '')})
             fine_out.append((c, r))
+
+    def unpruned_thread():
         # the same design without pruning: TLC must find the listed classes (the classifier is not vacuous)
-        c = fine_cfgs[1]
-        r = tlc.run('Lifecycle', 'mc.cfg', timeout=400, workers=2, extra_files={'mc.cfg': cfg_text(c, False, RAW_INVS)})
+        r = tlc.run('Lifecycle', 'mc.cfg', timeout=400, workers=2, extra_files={'mc.cfg': cfg_text(fine_cfgs[1], False, RAW_INVS)})
         fine_out.append(('unpruned', r))
 
-    th = threading.Thread(target=fine_thread)
-    th.start()
+    def gate_thread():
+        ws = [w for w in witness_schedules() if w['gate'] == 'open-in-close-window']
+        job = {'mode': 'manual', 'schedules': ws, 'known': SLUGS, 'workers': 1, 'wait_ms': wait_ms}
+        gate_out.append((ws, run_go(ck, job, INSTR_GATE, timeout=600)))
 
-    # ---- 2. run-to-completion behaviours: exhaustive graph, edge cover replayed on real sessions
-    coarse = [dict(streams=[1, 2], cb=[2], closers=['c1'], atomic=True, maxsend=1, maxpc=1, accept=True, flush=False, maxops=2),
-              dict(streams=[1], cb=[], closers=['c1', 'c2'], atomic=True, maxsend=1, maxpc=0, accept=False, flush=True, maxops=2)]
-    if not quick:
-        coarse = [dict(streams=[1, 2], cb=[2], closers=['c1'], atomic=True, maxsend=1, maxpc=1, accept=True, flush=False, maxops=3),
-                  dict(streams=[1], cb=[], closers=['c1', 'c2'], atomic=True, maxsend=1, maxpc=0, accept=True, flush=True, maxops=4),
-                  dict(streams=[1, 2], cb=[1, 2], closers=['c1'], atomic=True, maxsend=2, maxpc=1, accept=False, flush=False, maxops=3)]
+    def graph_thread(i):
+        graphs[i] = tlc.dump_graph('Lifecycle', 'mc.cfg', timeout=1500 if quick else 3000, workers=4,
+                                   extra_files={'mc.cfg': cfg_text(coarse[i])})
+
+    threads = [threading.Thread(target=f) for f in (fine_thread, unpruned_thread, gate_thread)]
+    threads += [threading.Thread(target=graph_thread, args=(i,)) for i in range(len(coarse))]
+    for t in threads:
+        t.start()
+
+    def join_all():
+        for t in threads:
+            t.join()
+
+    # ---- run-to-completion behaviours: exhaustive graphs, edge cover replayed on real sessions
+    for t in threads[3:]:
+        t.join()
     combos = [('client', 'file'), ('server', 'memfd'), ('server', 'file'), ('client', 'memfd')]
-    real_pool = []
-    total_conf = 0
+    all_scheds, per_cfg = [], []
     for ci, c in enumerate(coarse):
-        ck.log('TLC exhaustive (run-to-completion): ' + describe(c))
-        res, nodes, edges, inits = tlc.dump_graph('Lifecycle', 'mc.cfg', timeout=1500, extra_files={'mc.cfg': cfg_text(c)})
+        res, nodes, edges, inits = graphs[ci]
         if res.violation:
             ck.inconc('TLC reports %s on Lifecycle (%s) with the listed finding classes pruned (design-level lead): %s'
                       % (res.violation, describe(c), [l for l, _ in res.trace][-12:]))
-            th.join()
+            join_all()
             return ck.finish()
         if not res.ok or not edges:
             ck.inconc('TLC did not complete on %s: %s' % (describe(c), res.error or res.out[-400:]))
-            th.join()
+            join_all()
             return ck.finish()
         ck.add('states', res.distinct)
         ck.add('transitions', len(edges))
         g = Graph(nodes, edges, inits, c['streams'])
         paths, remaining = tlc.cover_paths(inits, edges)
         total_paths = len(paths)
-        limit = 260 if quick else 2500
         if len(paths) > limit:
             paths = rng.sample(paths, limit)
         scheds = []
         for pi, p in enumerate(paths):
             s = g.schedule(p, 'cover-%d-%d' % (ci, pi))
             role, mem = combos[(pi + ck.seed) % 4]
+            if any(st['a'] == 'ParkAccept' for st in s['steps']):
+                role = 'server'      # AcceptStream exists on the server end only
             s.update(role=role, mem=mem, streams=len(c['streams']), cb=c['cb'])
-            if not c['accept'] or role == 'server' or not any(st['a'] == 'ParkAccept' for st in s['steps']):
-                scheds.append(s)
-            else:   # AcceptStream exists on the server end only
-                s['role'] = 'server'
-                scheds.append(s)
-        real_pool += [(c, s) for s in scheds]
-        job = {'mode': 'manual', 'schedules': scheds, 'known': listed, 'workers': 6, 'wait_ms': wait_ms}
-        ck.log('graph: %d states, %d edges, %d cover paths; replaying %d on real sessions' % (res.distinct, len(edges), total_paths, len(scheds)))
-        results = harness(ck, job, known, None, 'manual replay')
-        if results is None:
-            th.join()
+            scheds.append(s)
+        per_cfg.append((c, res, len(edges), total_paths, scheds))
+        all_scheds += scheds
+        ck.log('TLC %s: %d states, %d edges, %d cover paths, %d chosen for replay (%.0fs)'
+               % (describe(c), res.distinct, len(edges), total_paths, len(scheds), res.wall))
+    wits = [w for w in witness_schedules() if w['gate'] != 'open-in-close-window']
+
+    # the same behaviours at user level against the real epoll loop; peer severed in-process or SIGKILLed child process
+    real_scheds, seen = [], set()
+    cands = [s for s in all_scheds if any(st['a'] == 'PeerDies' for st in s['steps'])]
+    rng.shuffle(cands)
+    n_in, n_child = (36, 8) if quick else (400, 60)
+    for s in cands:
+        steps = [dict(a=x['a'], s=x['s'], t=x['t']) for x in s['steps'] if x['a'] in USER_LEVEL]
+        key = json.dumps(steps) + s['role']
+        if key in seen or len(steps) < 2:
+            continue
+        seen.add(key)
+        nc = len([x for x in real_scheds if x['peer'] == 'child'])
+        ni = len(real_scheds) - nc
+        if nc >= n_child and ni >= n_in:
+            break
+        peer = 'child' if (nc < n_child and (len(real_scheds) % 4 == 0 or ni >= n_in)) else 'inproc'
+        real_scheds.append({'name': 'real-%d' % len(real_scheds), 'steps': steps, 'role': s['role'], 'mem': s['mem'],
+                            'streams': s['streams'], 'cb': s['cb'], 'peer': peer, 'end': rng.choice(['kill', 'close'])})
+    for k, (role, mem) in enumerate(combos if not quick else combos[:2]):
+        # user Close with a live child peer that is killed / exits afterwards
+        real_scheds.append({'name': 'real-close-%d' % k, 'role': role, 'mem': mem, 'streams': 1, 'cb': [], 'peer': 'child',
+                            'end': ['kill', 'close'][k % 2],
+                            'steps': [{'a': 'ParkRead', 's': 1, 't': ''}, {'a': 'CloseCall', 's': 0, 't': 'c1'}, {'a': 'CloseCall', 's': 0, 't': 'c2'}]})
+    real_out = []
+
+    def real_thread():
+        job = {'mode': 'real', 'schedules': real_scheds, 'known': SLUGS, 'workers': 5, 'wait_ms': wait_ms, 'stop_after': 3}
+        real_out.append((job, run_go(ck, job, None, timeout=900 if quick else 3000)))
+
+    rt = threading.Thread(target=real_thread)
+    rt.start()
+    threads.append(rt)
+    ck.log('real epoll loop: %d user-level behaviours (%d with a child process peer that is SIGKILLed) started'
+           % (len(real_scheds), len([x for x in real_scheds if x['peer'] == 'child'])))
+
+    job = {'mode': 'manual', 'schedules': all_scheds + wits, 'known': SLUGS, 'workers': 6, 'wait_ms': wait_ms, 'stop_after': 3}
+    ck.log('replaying %d TLC behaviours + %d witnesses on real sessions (harness-driven event loops)' % (len(all_scheds), len(wits)))
+    results = harness(ck, job, known, None, 'manual replay')
+    if results is None:
+        join_all()
+        return ck.finish()
+    # anything that is not a clean conforming pass is executed a second time alone (time based waits, shared machine)
+    by_name = {s['name']: s for s in job['schedules']}
+    unlisted = lambda r: [v for v in r['violations'] if not v.get('known')]
+    bad = [r['name'] for r in results if not r['name'].startswith('witness-') and r['harness'] != 'skipped'
+           and (r['drift'] or unlisted(r) or r['harness'])]
+    if bad:
+        ck.log('%d behaviours not clean on the first pass, re-running them serially: %s' % (len(bad), bad[:5]))
+        job2 = dict(job, schedules=[by_name[n] for n in bad[:30]], workers=1, wait_ms=2 * wait_ms)
+        again = harness(ck, job2, known, None, 'manual re-run')
+        if again is None:
+            join_all()
             return ck.finish()
-        # anything that is not a clean conforming pass is executed a second time alone (time based waits, shared machine)
-        bad = [r['name'] for r in results if r['drift'] or r['violations'] or r['harness']]
-        if bad:
-            ck.log('%d behaviours not clean on the first pass, re-running them serially' % len(bad))
-            by_name = {s['name']: s for s in scheds}
-            job2 = dict(job, schedules=[by_name[n] for n in bad[:40]], workers=1, wait_ms=2 * wait_ms)
-            again = harness(ck, job2, known, None, 'manual re-run')
-            if again is None:
-                th.join()
-                return ck.finish()
-            good = {r['name']: r for r in again}
-            results = [good.get(r['name'], r) if r['name'] in good else r for r in results]
-        conf = report(ck, results, job, known, counts)
+        good = {r['name']: r for r in again}
+        results = [good.get(r['name'], r) for r in results]
+    rmap = {r['name']: r for r in results}
+    total_conf = 0
+    for c, res, nedges, total_paths, scheds in per_cfg:
+        rs = [rmap[s['name']] for s in scheds if rmap[s['name']]['harness'] != 'skipped']
+        conf = report(ck, rs, job, known, counts)
         total_conf += conf
         ck.cov['tlc_configs'].append('Lifecycle %s, finding classes pruned: %d states, %d transitions, depth %d, %.0fs; %d of %d '
-                                     'cover paths replayed, %d conforming' % (describe(c), res.distinct, len(edges), res.depth,
-                                                                              res.wall, len(scheds), total_paths, conf))
+                                     'cover paths replayed, %d conforming' % (describe(c), res.distinct, nedges, res.depth,
+                                                                              res.wall, len(rs), total_paths, conf))
         if scheds:
-            ck.sample({'tlc_behaviour_replayed_on_real_sessions': brief(scheds[len(scheds) // 2]),
-                       'survivor': scheds[len(scheds) // 2]['role'], 'memory': scheds[len(scheds) // 2]['mem']})
-        if ck.violations:
-            th.join()
-            return ck.finish()
+            m = scheds[len(scheds) // 2]
+            ck.sample({'tlc_behaviour_replayed_on_real_sessions': brief(m), 'survivor': m['role'], 'memory': m['mem']})
     ck.add('traces_validated_against_impl', total_conf)
     ck.cov['exhaustive'] = True
+    for wsched in wits:
+        witness_verdict(ck, prop, known, wsched, rmap[wsched['name']])
 
-    # ---- 3. witnesses of the known-finding classes on the real code
-    for slug, wit in WITNESS.items():
-        sched = {'name': 'witness-' + slug, 'role': 'server' if slug == 'no-close-callback-when-busy' else 'client', 'mem': 'file',
-                 'streams': wit['streams'], 'cb': wit['cb'], 'gate': wit.get('gate', ''), 'raw': True,
-                 'steps': [{'a': a, 's': s, 't': t} for a, s, t in wit['steps']]}
-        job = {'mode': 'manual', 'schedules': [sched], 'known': listed, 'workers': 1, 'wait_ms': wait_ms}
-        results = harness(ck, job, known, INSTR_GATE if wit.get('gate') == 'open-in-close-window' else None, 'witness ' + slug)
-        if results is None:
+    # ---- collect the threads
+    join_all()
+    for ws, (res, crash) in gate_out:
+        if res is None:
+            ck.notes.append('gate witness could not be executed: %s' % (crash['out'][-300:]))
             continue
-        r = results[0]
-        hit = [v for v in r['violations'] if v.get('known') == slug]
-        other = [v for v in r['violations'] if v.get('known') != slug]
-        if hit:
-            if (prop, slug) in known:
-                ck.known(slug, known[(prop, slug)] + ' [witness replayed on real code: %s]' % hit[0]['detail'][:300])
-            else:
-                ck.violation('%s: %s' % (slug, hit[0]['detail']), {'mode': 'manual', 'schedule': sched, 'kind': hit[0]['kind'],
-                                                                 'detail': hit[0]['detail'], 'gate': sched['gate']})
-        elif (prop, slug) in known:
-            ck.notes.append('listed known finding %s: the witness did not reproduce on this tree (%s)' % (slug, r['harness'] or 'no violation'))
-        for v in other:
-            ck.violation('%s (witness-%s): %s' % (v['kind'], slug, v['detail']), {'mode': 'manual', 'schedule': sched,
-                                                                                  'kind': v['kind'], 'detail': v['detail'], 'gate': sched['gate']})
-    ck.log('witnesses done')
-
-    # ---- 4. the same behaviours at user level against the real epoll loop; peer severed in-process or SIGKILLed child
-    if not ck.violations:
-        cands = [(c, s) for c, s in real_pool if any(st['a'] == 'PeerDies' for st in s['steps'])]
-        rng.shuffle(cands)
-        seen, scheds = set(), []
-        n_in, n_child = (40, 10) if quick else (400, 60)
-        for c, s in cands:
-            steps = project_real(s, None, None, rng)
-            key = json.dumps(steps)
-            if key in seen or len(steps) < 2:
-                continue
-            seen.add(key)
-            peer = 'child' if len([x for x in scheds if x['peer'] == 'child']) < n_child and len(scheds) % 3 == 0 else 'inproc'
-            if peer == 'inproc' and len([x for x in scheds if x['peer'] == 'inproc']) >= n_in:
-                if len([x for x in scheds if x['peer'] == 'child']) >= n_child:
-                    break
-                peer = 'child'
-            scheds.append({'name': 'real-%d' % len(scheds), 'steps': steps, 'role': s['role'], 'mem': s['mem'], 'streams': s['streams'],
-                           'cb': s['cb'], 'peer': peer, 'end': rng.choice(['kill', 'close'])})
-        # user close with a live child peer that is killed / exits afterwards
-        for k, (role, mem) in enumerate(combos if not quick else combos[:2]):
-            scheds.append({'name': 'real-close-%d' % k, 'steps': [{'a': 'ParkRead', 's': 1, 't': ''}, {'a': 'CloseCall', 's': 0, 't': 'c1'},
-                                                                  {'a': 'CloseCall', 's': 0, 't': 'c2'}],
-                           'role': role, 'mem': mem, 'streams': 1, 'cb': [], 'peer': 'child', 'end': ['kill', 'close'][k % 2]})
-        job = {'mode': 'real', 'schedules': scheds, 'known': listed, 'workers': 6, 'wait_ms': wait_ms}
-        ck.log('real epoll loop: %d user-level behaviours (%d with a child process peer that is SIGKILLed)'
-               % (len(scheds), len([x for x in scheds if x['peer'] == 'child'])))
-        results = harness(ck, job, known, None, 'real loop')
-        if results is not None:
-            bad = [r['name'] for r in results if r['violations'] or r['harness']]
-            if bad:
-                by_name = {s['name']: s for s in scheds}
-                job2 = dict(job, schedules=[by_name[n] for n in bad[:20]], workers=1, wait_ms=2 * wait_ms)
-                again = harness(ck, job2, known, None, 'real loop re-run')
+        for wsched, r in zip(ws, res['results']):
+            witness_verdict(ck, prop, known, wsched, r)
+    for job_r, (res, crash) in real_out:
+        if res is None:
+            # a crash of the test process with the real loop: attribute it
+            results_r = harness(ck, dict(job_r, workers=1), known, None, 'real loop (after a crash, serial)') if crash['crashed'] else None
+            if results_r is None and not crash['crashed']:
+                ck.inconc('real-loop harness produced no result: %s' % crash['out'][-500:])
+        else:
+            results_r = res['results']
+        if results_r is not None:
+            by_r = {s['name']: s for s in job_r['schedules']}
+            badr = [r['name'] for r in results_r if r['harness'] != 'skipped' and (unlisted(r) or r['harness'])]
+            if badr:
+                ck.log('%d real-loop behaviours not clean, re-running serially: %s' % (len(badr), badr[:5]))
+                again = harness(ck, dict(job_r, schedules=[by_r[n] for n in badr[:12]], workers=1, wait_ms=2 * wait_ms), known, None, 'real re-run')
                 if again is not None:
                     good = {r['name']: r for r in again}
-                    results = [good.get(r['name'], r) for r in results]
-            rc = dict(behaviours=0, steps=0, compared=0, census=0, later=0, pending=0, nd_diverged=0, drift=[], harness_problems=[],
-                      known_hits=counts['known_hits'])
-            ok = report(ck, results, job, known, rc)
+                    results_r = [good.get(r['name'], r) for r in results_r]
+            rc = new_counts()
+            rc['known_hits'] = counts['known_hits']
+            ok = report(ck, [r for r in results_r if r['harness'] != 'skipped'], job_r, known, rc)
             ck.cov['real_loop_behaviours'] = rc['behaviours']
-            ck.cov['real_loop_child_process_kills'] = len([x for x in scheds if x['peer'] == 'child'])
+            ck.cov['real_loop_child_process_peers'] = len([x for x in job_r['schedules'] if x['peer'] == 'child'])
             ck.cov['real_loop_clean'] = ok
-            counts['census'] += rc['census']
-            counts['later'] += rc['later']
-            counts['pending'] += rc['pending']
+            for k in ('census', 'later', 'pending'):
+                counts[k] += rc[k]
             counts['harness_problems'] += rc['harness_problems']
-            if scheds:
-                ck.sample({'real_loop_behaviour': brief(scheds[0]), 'peer': scheds[0]['peer'], 'survivor': scheds[0]['role']})
-
-    # ---- 5. collect the design check
-    th.join()
+            if job_r['schedules']:
+                m = job_r['schedules'][0]
+                ck.sample({'real_loop_behaviour': brief(m), 'peer': m['peer'], 'survivor': m['role'], 'child_end': m['end']})
     for c, r in fine_out:
         if c == 'unpruned':
             ck.cov['design_counterexample_without_pruning'] = (r.violation or 'none') + (
@@ -470,8 +535,8 @@ def run(prop, tier, seed, replay=None):
         else:
             ck.add('states', r.distinct)
             ck.add('transitions', r.generated)
-            ck.cov['tlc_configs'].append('Lifecycle %s, finding classes pruned, invariants + leads-to: %d states, %d generated, depth %d, %.0fs'
-                                         % (describe(c), r.distinct, r.generated, r.depth, r.wall))
+            ck.cov['tlc_configs'].append('Lifecycle %s, finding classes pruned, invariants%s: %d states, %d generated, depth %d, %.0fs'
+                                         % (describe(c), ' + leads-to' if len(c['streams']) == 1 else '', r.distinct, r.generated, r.depth, r.wall))
 
     ck.cov['replayed_behaviours'] = counts['behaviours']
     ck.cov['replay_steps'] = counts['steps']
